@@ -829,6 +829,12 @@ def c19_docs(tokens, rng=None, two_token=None, lists=20):
             probes.append(([d], ".".join(d) + suffix))
     probes.append(([["*"]], "*"))
     r = rng or random.Random(0)
+    # every ordered pair of single-token descriptors (an earlier descriptor may be a character prefix of a token
+    # that a later descriptor matches as a whole)
+    for a in tokens:
+        for b in tokens:
+            if a != b:
+                probes.append(([[a], [b]], a + " " + b + r.choice(["", ".*"])))
     for _ in range(lists):
         d1, d2 = r.choice(descs), r.choice(descs)
         probes.append(([d1, d2], ".".join(d1) + r.choice(["", ".", ".*"]) + " " + ".".join(d2) + r.choice(["", ".*"])))
@@ -1236,6 +1242,104 @@ def random_doc(rng, max_states=9, max_trans=8, history=True, finals=True, conten
             n.initial = ("elem", Trans(tgt=[rng.choice(kids)]))
     # avoid unbounded eventless loops: every eventless transition is guarded by x < k and increments x (done above)
     return Doc(tmp.root, family="rand", name=name, alphabet=["e1", "e2", "e3", "zz"])
+
+
+def random_par_doc(rng, name="", history=False):
+    """a parallel-heavy random document: several regions whose atomic states react to the same events, so that
+    microsteps with several transitions, pre-emption and order-dependent selection occur often"""
+    cnt = [0]
+
+    def nm(p):
+        cnt[0] += 1
+        return "%s%d" % (p, cnt[0])
+
+    regions = []
+    atoms = []
+    for _ in range(rng.randint(2, 3)):
+        kids = []
+        for _ in range(rng.randint(2, 3)):
+            if rng.random() < 0.25:
+                inner = [S(nm("a")), S(nm("a"))]
+                kids.append(S(nm("c"), *inner))
+                atoms += inner
+            else:
+                k = S(nm("a"))
+                kids.append(k)
+                atoms.append(k)
+        r = S(nm("r"), *kids)
+        if history and rng.random() < 0.5:
+            h = H(nm("h"), deep=rng.random() < 0.5)
+            r.kids.insert(0, h)
+            h.parent = r
+            h.t(None, rng.choice([k for k in r.kids if k.kind != "history"]))
+        regions.append(r)
+    p = P(nm("p"), *regions)
+    o = S(nm("o"))
+    wrap = S(nm("w"), p) if rng.random() < 0.4 else p
+    if wrap is not p and history and rng.random() < 0.7:
+        h = H(nm("h"), deep=True)
+        wrap.kids.insert(0, h)
+        h.parent = wrap
+        h.t(None, p)
+    root = ROOT(wrap, o)
+
+    def region_of(a):
+        x = a
+        while x.parent is not None and x.parent is not p:
+            x = x.parent
+        return x
+
+    def descendants(n):
+        out = []
+        for k in n.kids:
+            if k.kind != "history":
+                out.append(k)
+                out += descendants(k)
+        return out
+
+    events = ["e1", "e2", "e3"]
+    hists = [n for n in descendants(root) + [k for r in regions for k in r.kids] if n.kind == "history"]
+    for a in atoms:
+        reg = region_of(a)
+        for _ in range(rng.randint(1, 2)):
+            r = rng.random()
+            if r < 0.6:
+                tgt = [rng.choice([x for x in descendants(reg) if x is not a] or [a])]
+            elif r < 0.72:
+                other = rng.choice([x for x in regions if x is not reg])
+                tgt = [rng.choice(descendants(other))]
+            elif r < 0.84:
+                tgt = [o]
+            elif r < 0.92:
+                tgt = None
+            else:
+                tgt = [reg]
+            body = [braise(rng.choice(["r1", "r2"]))] if rng.random() < 0.15 else None
+            c = TRUE
+            if rng.random() < 0.15:
+                c = cond("lt", n="x", v=rng.randint(1, 3))
+                body = (body or []) + [assign("x", expr("inc", "x"))]
+            a.t(rng.choice(events), tgt, cond_=c, internal=rng.random() < 0.15, body=body)
+    for reg in regions:
+        if rng.random() < 0.5:
+            reg.t(rng.choice(events + ["r1"]), [rng.choice(descendants(reg))] if rng.random() < 0.7 else [o],
+                  internal=rng.random() < 0.3)
+    if rng.random() < 0.6:
+        p.t(rng.choice(events + ["r2"]), [o] if rng.random() < 0.6 else None)
+    # back into the parallel: default, multi-target into two regions, or through a history state
+    o.t("e1", p)
+    two = rng.sample(regions, 2)
+    o.t("e2", [rng.choice(descendants(two[0])), rng.choice(descendants(two[1]))])
+    if hists:
+        o.t("e3", [rng.choice(hists)])
+    else:
+        o.t("e3", [rng.choice(atoms)])
+    return Doc(root, family="par", name=name, alphabet=["e1", "e2", "e3"])
+
+
+def par_docs(seed, count, history=False):
+    rng = random.Random(seed * 7919 + 13)
+    return [random_par_doc(rng, name="par%d" % i, history=history) for i in range(count)]
 
 
 def rand_docs(seed, count, **kw):
